@@ -192,6 +192,17 @@ func c17Once(c *Ctx, get *ssa.Function) {
 			}
 		}
 		c.check(okR, "C17.once.token-protocol", loader, "every caller returns the one cached result", ret, "all callers receive the single constructed value")
+		// ... and only after receiving from the token channel: the receive (of
+		// the token, or of the close) is what orders the read of the cached
+		// cell after the constructor's write
+		isRecv := func(in ssa.Instruction) bool { return recv != nil && in == ssa.Instruction(recv) }
+		mn, _, okP := core.CountOnPaths(loader, nil, ret, isRecv)
+		c.check(okP && mn >= 1, "C17.once.token-protocol", loader, "every path to a return passes the channel receive", ret,
+			"a path that skips the receive can return the cell before (or while) the constructor writes it: a caller arriving during construction gets the zero value")
+		// the read of the cached cell itself happens after the receive
+		if ld, ok := ret.Results[0].(*ssa.UnOp); ok && recv != nil {
+			c.check(core.Dominates(recv, ld), "C17.once.token-protocol", loader, "the cached cell is read after the receive", ld, "happens-before through the channel")
+		}
 	}
 	// who may call the constructor field
 	n := 0
